@@ -157,7 +157,11 @@ def correspond(ctx) -> Corr:
 
 # oracle keys whose theorem is proved for ARBITRARY states (Props_C08: C08_bad_bunch_rejected, C08_rejected_unchanged): a history need
 # not satisfy the environment assumptions for them to count as a failing input
-ANY_STATE_KEYS = {'C08': ['C08:accepted-', 'C08:rejected-submission-changed-state', 'C08:bunch-colliding']}
+ANY_STATE_KEYS = {'C08': ['C08:accepted-', 'C08:rejected-submission-changed-state', 'C08:bunch-colliding'],
+                  # Props_C41.C41_parent_completion_does_not_release: from ANY state a completion report leaves the rows of uncommitted
+                  # updates unchanged
+                  'C41': ['C41:uncommitted-job-became-Ready:mark_complete', 'C41:uncommitted-job-became-Cancelled:mark_complete',
+                          'C41:uncommitted-job-became-Pending:mark_complete']}
 
 
 def oracle_for(pid: str):
